@@ -40,6 +40,7 @@ class PCfg:
         self.nonequi = True
         self.exclude_known = True  # avoid the shapes of open known findings by construction
         self.sized = False  # sized integer / float32 source columns (C12, C17)
+        self.union_mixed = 1  # weight (against 4) of tag columns with different literal types in a union
         w = kw.pop("weights", None)
         self.__dict__.update(kw)
         if w:
@@ -657,9 +658,15 @@ class PipeGen:
             fresh = [n for n in data.NEW_NAMES if n not in taken]
             if fresh:
                 name = self.pick(fresh)
-                fam = self.pick(["str", "int"])
+                fam = self.pick(["str", "int", "str", "int"] + ["mixed"] * self.cfg.union_mixed)
                 la, lb = (["lit", "a"], ["lit", "b"]) if fam == "str" else (["lit", 1], ["lit", 2])
-                if self.chance(2):
+                if fam == "mixed":
+                    # literal columns of different types: the union's column type is their common type
+                    la, lb = self.pick([(["lit", 1], ["lit", 2.5]), (["lit", 2.5], ["lit", 1]), (["lit", None], ["lit", 7]),
+                                        (["lit", 7], ["lit", None]), (["lit", None], ["lit", "r"]), (["lit", "r"], ["lit", None]),
+                                        (["lit", None], ["lit", 1.5]), (["lit", True], ["lit", None])])
+                    self.classes.add("union_tag_mixed_types")
+                elif self.chance(2):
                     lb = la
                 var = self.emit({"out": self.new_var(), "verb": "mutate", "in": var, "items": [[name, la]]})
                 rvar = self.emit({"out": self.new_var(), "verb": "mutate", "in": rvar, "items": [[name, lb]]})
